@@ -126,6 +126,9 @@ func runC04(ctx *vh.Ctx) error {
 		o := gcase.GenOpts{Mode: "mixed", MaxNodes: 6, Depth: 1, Cycles: true, FailPct: 3, BranchPct: 20}
 		g := gcase.Gen(ctx.Rng, o)
 		gcase.AssignNatives(ctx.Rng, g)
+		if ctx.Rng.Chance(60) {
+			gcase.AssignKeys(ctx.Rng, g)
+		}
 		c := &c04Case{G: g, Input: fmt.Sprintf("input%d", ctx.Rng.Intn(5))}
 		for k := ctx.Rng.Intn(3); k > 0; k-- {
 			c.InChunks = append(c.InChunks, ctx.Rng.Intn(3))
